@@ -88,6 +88,7 @@ type c03Req struct {
 	cut    int
 	mutPos int
 	mutXor byte
+	Dbg    string `json:"dbg"`
 }
 
 var oidOther = asn1.ObjectIdentifier{1, 3, 6, 1, 5, 5, 2, 99}
@@ -220,6 +221,8 @@ func (cw *c03world) headerFor(q *c03Req, s c01Settings) (string, bool, *apMint, 
 			}
 		}
 		tokb = append([]byte{}, tokb...)
+		q.Dbg = fmt.Sprintf("pos=%d len=%d tkt@%d+%d auth@%d+%d xor=%d", pos, len(tokb), bytes.Index(tokb, ap.Ticket.EncPart.Cipher), len(ap.Ticket.EncPart.Cipher),
+			bytes.Index(tokb, ap.EncryptedAuthenticator.Cipher), len(ap.EncryptedAuthenticator.Cipher), q.mutXor)
 		tokb[pos] ^= q.mutXor
 	}
 	return "Negotiate " + base64.StdEncoding.EncodeToString(tokb), true, m, nil
@@ -521,8 +524,11 @@ func (cw *c03world) runSequence(tw *traceWriter, s c01Settings, et int32, qs []c
 		// ---- the token verification APIs on a fresh token of the same abstract request (single requests only)
 		var api c03API
 		var apiConc map[string]interface{}
+		apiQ := q
 		if len(qs) == 1 && (q.Hdr.Class == "negInit" || q.Hdr.Class == "negResp" || q.Hdr.Class == "rawKRB5" || q.Hdr.Class == "mutated" || q.Hdr.Class == "truncated") {
-			hv2, _, m2, err := cw.headerFor(q, s)
+			q2 := *q // the fresh token has its own layout: classify its mutation separately
+			hv2, _, m2, err := cw.headerFor(&q2, s)
+			apiQ = &q2
 			if err != nil {
 				return err
 			}
@@ -584,7 +590,7 @@ func (cw *c03world) runSequence(tw *traceWriter, s c01Settings, et int32, qs []c
 		if apiConc == nil {
 			apiConc = conc
 		}
-		recs = append(recs, map[string]interface{}{"q": q, "conc": conc, "obs": o, "api": api, "apiconc": apiConc})
+		recs = append(recs, map[string]interface{}{"q": *q, "apiq": *apiQ, "conc": conc, "obs": o, "api": api, "apiconc": apiConc})
 	}
 	tw.emit(map[string]interface{}{"settings": s, "et": et, "reqs": recs})
 	return nil
